@@ -10,44 +10,58 @@
    Results that are OBJECTS (a Bounds, nested coordinates, a cloned or computed geometry) belong to the caller, who
    may overwrite them (Scribble): the operation "box" returns such an object; it must be made of fresh storage.
    With AllowAlias = TRUE (third control) the box is a view of the argument's first cell and the caller's write goes
-   through to the shared cell: TLC must find the purity violation. *)
+   through to the shared cell: TLC must find the purity violation.
+   Results are VALUES: the operation "enc" assembles its result in a scratch cell that belongs to the library (a pooled or
+   reused buffer) and hands out a copy; what a caller holds stays what it was at the return (ResultsAreValues) whatever
+   other calls do.  With AllowPool = TRUE (fourth control) it hands out the scratch cell itself: TLC must find a held result
+   that a later call has overwritten. *)
 EXTENDS Integers, Sequences, FiniteSets, TLC
-CONSTANTS NProc, AllowWrite, AllowAlias, MaxCalls
+CONSTANTS NProc, AllowWrite, AllowAlias, AllowPool, MaxCalls
 Cells == 1..3
 Init0 == [c \in Cells |-> 4 - c]                      \* initial contents 3, 2, 1 (unsorted, so that a sort is visible)
-Ops == (IF AllowWrite THEN {"sum", "max", "sortsum"} ELSE {"sum", "max"}) \cup {"box"}
+Ops == (IF AllowWrite THEN {"sum", "max", "sortsum"} ELSE {"sum", "max"}) \cup {"box", "enc"}
 \* what an operation returns when it runs alone on the initial cells
 Alone(op) == CASE op = "sum" -> Init0[1] + Init0[2] + Init0[3] [] op = "max" -> 3 [] op = "sortsum" -> Init0[1] + Init0[2] + Init0[3]
-                 [] op = "box" -> 3
-VARIABLES cell, pc, op, acc, k, res, calls
-vars == <<cell, pc, op, acc, k, res, calls>>
+                 [] op = "box" -> 3 [] op = "enc" -> Init0[1] + Init0[2] + Init0[3]
+\* scratch: the library's own cell; held[p]: what the result of p's last call refers to - "copy" (res[p] itself) or "scratch"
+VARIABLES cell, pc, op, acc, k, res, calls, scratch, held
+vars == <<cell, pc, op, acc, k, res, calls, scratch, held>>
 Procs == 1..NProc
 Init == /\ cell = Init0 /\ pc = [p \in Procs |-> "idle"] /\ op = [p \in Procs |-> "sum"]
         /\ acc = [p \in Procs |-> 0] /\ k = [p \in Procs |-> 1] /\ res = [p \in Procs |-> -1] /\ calls = [p \in Procs |-> 0]
+        /\ scratch = 0 /\ held = [p \in Procs |-> "copy"]
 Start(p) == /\ pc[p] \in {"idle", "done"} /\ calls[p] < MaxCalls /\ \E o \in Ops : op' = [op EXCEPT ![p] = o]
             /\ calls' = [calls EXCEPT ![p] = @ + 1]
             /\ pc' = [pc EXCEPT ![p] = "run"] /\ acc' = [acc EXCEPT ![p] = 0] /\ k' = [k EXCEPT ![p] = 1]
-            /\ UNCHANGED <<cell, res>>
+            /\ held' = [held EXCEPT ![p] = "copy"]                \* the caller lets go of the previous result
+            /\ UNCHANGED <<cell, res, scratch>>
 Read(p) ==  /\ pc[p] = "run" /\ k[p] <= 3
             /\ acc' = [acc EXCEPT ![p] = IF op[p] \in {"max", "box"} THEN (IF cell[k[p]] > @ THEN cell[k[p]] ELSE @) ELSE @ + cell[k[p]]]
             /\ k' = [k EXCEPT ![p] = @ + 1]
             \* the control operation bubbles its argument into order while it reads it
             /\ cell' = IF op[p] = "sortsum" /\ k[p] < 3 /\ cell[k[p]] > cell[k[p] + 1]
                        THEN [cell EXCEPT ![k[p]] = cell[k[p] + 1], ![k[p] + 1] = cell[k[p]]] ELSE cell
-            /\ UNCHANGED <<pc, op, res, calls>>
+            /\ UNCHANGED <<pc, op, res, calls, scratch, held>>
 Return(p) == /\ pc[p] = "run" /\ k[p] = 4
              /\ res' = [res EXCEPT ![p] = acc[p]] /\ pc' = [pc EXCEPT ![p] = "done"]
+             \* "enc" assembles its result in the scratch cell; it hands out a copy - or, under the control, the cell itself
+             /\ scratch' = IF op[p] = "enc" THEN acc[p] + calls[p] ELSE scratch
+             /\ held' = [held EXCEPT ![p] = IF op[p] = "enc" /\ AllowPool THEN "scratch" ELSE "copy"]
              /\ UNCHANGED <<cell, op, acc, k, calls>>
 \* the caller overwrites the object a finished "box" call handed out (once): fresh storage is nobody else's business;
 \* under the control the object is a view of cell 1
 Scribble(p) == /\ pc[p] = "done" /\ op[p] = "box"
                /\ pc' = [pc EXCEPT ![p] = "idle"]
                /\ cell' = IF AllowAlias THEN [cell EXCEPT ![1] = 0] ELSE cell
-               /\ UNCHANGED <<op, acc, k, res, calls>>
+               /\ UNCHANGED <<op, acc, k, res, calls, scratch, held>>
 Next == \E p \in Procs : Start(p) \/ Read(p) \/ Return(p) \/ Scribble(p)
 Spec == Init /\ [][Next]_vars
 \* purity: no library step changes a shared cell
 Pure == [][cell' = cell]_vars
 \* determinism: every returned result is the sequential one
 SequentialResults == \A p \in Procs : pc[p] = "done" => res[p] = Alone(op[p])
+\* what a caller sees when it looks at the result it holds (the n-th call of a process stamps n into the scratch cell, so
+\* that two calls never leave the same content behind)
+Seen(p) == IF held[p] = "scratch" THEN scratch ELSE res[p] + calls[p]
+ResultsAreValues == \A p \in Procs : pc[p] = "done" /\ op[p] = "enc" => Seen(p) = res[p] + calls[p]
 ====
